@@ -686,7 +686,8 @@ def draw_driver(rng):
         if rng.random() < 0.5:
             dopts.append('gf_terminals')
         if rng.random() < 0.5:
-            dopts.append('gf_separator:' + rng.choice(['#', '+', '/']))
+            dopts.append('gf_separator:' + rng.choice(['#', '+', '/', '-',
+                                                       '--']))
     if rng.random() < 0.25:
         dopts.append('brackets_emptyroot')
     if rng.random() < 0.25:
